@@ -35,8 +35,8 @@ def worker_init(tier):
     _tier[0] = tier
 
 
-def _spec(r, chain, number=None):
-    return (chain, number if number is not None else r["number"], None, r["name"], r["name"], [(n, np.array([x, y, z])) for n, x, y, z, el in r["atoms"]])
+def _spec(r, chain, number=None, icode=None):
+    return (chain, number if number is not None else r["number"], icode, r["name"], r["name"], [(n, np.array([x, y, z])) for n, x, y, z, el in r["atoms"]])
 
 
 def hosts():
@@ -57,7 +57,9 @@ def hosts():
     h7 = [abasic, _spec(d[1], "A"), _spec(d[2], "A"), _spec(d[12], "B"), _spec(d[13], "B")]
     # numbering that goes DOWN across a chain break (41 42 43 | 10 11): no residue is missing between 43 and 10, so no placeholder belongs there
     h8 = [_spec(d[0], "A", 41), _spec(d[1], "A", 42), _spec(d[2], "A", 43), _spec(d[4], "A", 10), _spec(d[5], "A", 11)]
-    return {"numbers-descend": h8, "two-chains": h1, "gap": h2, "with-ligand": h3, "gap-after-first": h4, "gap-before-last": h5, "chain-returns": h6, "abasic-first": h7}
+    # a chain break inside a run of insertion codes (7, 8A | 8C, 9: residue 8B is not there): the numbers do not differ, so no placeholder is due
+    h9 = [_spec(d[0], "A", 7), _spec(d[1], "A", 8, "A"), _spec(d[3], "A", 8, "C"), _spec(d[4], "A", 9), _spec(d[5], "A", 10)]
+    return {"icode-run-break": h9, "numbers-descend": h8, "two-chains": h1, "gap": h2, "with-ligand": h3, "gap-after-first": h4, "gap-before-last": h5, "chain-returns": h6, "abasic-first": h7}
 
 
 _hosts = {}
